@@ -533,6 +533,13 @@ pub fn gen_c05(em: &mut Emitter, rng: &mut Rng) {
     if em.mine(base + 5) {
         surplus_response_forgery::<Ps>(em, &mut rng.sub(8006), "ps");
     }
+    // equality statements over 3..4 credentials whose values are only partially equal (every pairing pattern)
+    if em.mine(base + 6) {
+        c09_layouts::<Bbs>(em, &mut rng.sub(8007), "bbs", "c05");
+    }
+    if em.mine(base + 7) {
+        c09_layouts::<Ps>(em, &mut rng.sub(8008), "ps", "c05");
+    }
 }
 
 // ------------------------------------------------------------------------------------------------
@@ -670,7 +677,7 @@ fn c09_suite<S: ShortGroupSignatureScheme + 'static>(em: &mut Emitter, base: &mu
 /// partially equal layouts over 3..4 credentials (a,a,b / a,b,a / a,a,b,b / …): a deviating holder proves
 /// equality honestly inside every group of equal values (shared blinding per group) and answers the
 /// verifier's challenge for one equality statement over *all* credentials
-fn c09_layouts<S: ShortGroupSignatureScheme + 'static>(em: &mut Emitter, rng: &mut Rng, suite: &str) {
+fn c09_layouts<S: ShortGroupSignatureScheme + 'static>(em: &mut Emitter, rng: &mut Rng, suite: &str, tag: &str) {
     let layouts: Vec<Vec<u8>> = vec![
         vec![0, 0, 0], vec![0, 0, 0, 0], vec![0, 0, 1], vec![0, 1, 0], vec![1, 0, 0], vec![0, 1, 1],
         vec![0, 0, 1, 1], vec![0, 1, 0, 1], vec![0, 1, 1, 0], vec![0, 0, 0, 1], vec![0, 0, 1, 0], vec![0, 1, 0, 0], vec![1, 0, 0, 0], vec![0, 0, 1, 2], vec![0, 1, 2, 2], vec![0, 1, 1, 2],
@@ -736,10 +743,10 @@ fn c09_layouts<S: ShortGroupSignatureScheme + 'static>(em: &mut Emitter, rng: &m
             if let Out::Ok(q) = pres_from_value::<S>(&v) {
                 if layout.iter().all(|g| *g == 0) {
                     if !scn.verify(&q).is_ok() {
-                        em.violation("c09:equal-values-rejected", format!("{}: identical values over {} credentials rejected", suite, n_creds), scn.replay(json!({"suite": suite, "layout": layout})));
+                        em.violation(&format!("{}:equal-values-rejected", tag), format!("{}: identical values over {} credentials rejected", suite, n_creds), scn.replay(json!({"suite": suite, "layout": layout})));
                     }
                 } else {
-                    judge(em, "c09", suite, "partially-equal-layout", &scn, &q, &format!("layout {:?} pos {}", layout, pos));
+                    judge(em, tag, suite, "partially-equal-layout", &scn, &q, &format!("layout {:?} pos {}", layout, pos));
                 }
                 // model: the verifier's test on the collected responses (everything else in q is valid)
                 let slot = if suite == "bbs" { pos } else { pos + 2 };
@@ -805,20 +812,44 @@ pub fn c09_representations<S: ShortGroupSignatureScheme + 'static>(em: &mut Emit
         let mut m = IndexMap::new();
         m.insert("sa".to_string(), 1usize);
         m.insert("sb".to_string(), 1usize);
-        let eq = EqualityStatement { id: "eq".to_string(), ref_id_claim_index: m };
-        let schema = PresentationSchema::new_with_id(&[sa.into(), sb.into(), eq.into()], "rep");
+        let eq = EqualityStatement { id: "eq".to_string(), ref_id_claim_index: m.clone() };
+        let mut m_rev = IndexMap::new();
+        m_rev.insert("sb".to_string(), 1usize);
+        m_rev.insert("sa".to_string(), 1usize);
+        let eq_rev = EqualityStatement { id: "eq".to_string(), ref_id_claim_index: m_rev };
         let mut creds: IndexMap<String, credx::presentation::PresentationCredential<S>> = IndexMap::new();
         creds.insert("sa".to_string(), ba.credential.clone().into());
         creds.insert("sb".to_string(), bb.credential.clone().into());
-        let nonce = rng.bytes(16);
-        em.oracle_case(&format!("{} representations {}", suite, name));
-        let ok = match call(|| Presentation::create(&creds, &schema, &nonce)) {
-            Out::Ok(p) => call(|| p.verify(&schema, &nonce)).is_ok(),
-            _ => false,
-        };
-        em.count(&format!("representations:{}:{}", name, ok));
-        if !ok {
-            em.violation(&format!("{}:equal-values-rejected:representation", tag), format!("{}: identical signed values in two representations ({}) are not accepted by an honest create / verify", suite, name), json!({"suite": suite, "case": name, "a": serde_json::to_value(&ca).unwrap_or_default(), "b": serde_json::to_value(&cb).unwrap_or_default()}));
+        // the equality alone (references listed in both orders), then with a predicate on each member in turn: a
+        // commitment, and a range where the member is a number
+        let mut variants: Vec<(String, Vec<Statements<S>>)> = vec![
+            ("plain".into(), vec![sa.clone().into(), sb.clone().into(), eq.clone().into()]),
+            ("references-reversed".into(), vec![sa.clone().into(), sb.clone().into(), eq_rev.clone().into()]),
+        ];
+        for (member, claim) in [("sa", &ca), ("sb", &cb)] {
+            for (order, e) in [("", &eq), ("-references-reversed", &eq_rev)] {
+                let com = CommitmentStatement { id: "com".into(), reference_id: member.to_string(), message_generator: g1_from_dl(rng.scalar()), blinder_generator: g1_from_dl(rng.scalar()), claim: 1 };
+                let mut st: Vec<Statements<S>> = vec![sa.clone().into(), sb.clone().into(), e.clone().into(), com.into()];
+                if let ClaimData::Number(nc) = claim {
+                    st.push(RangeStatement { id: "rng".into(), reference_id: "com".into(), signature_id: member.to_string(), claim: 1, lower: Some(nc.value - 5), upper: Some(nc.value + 5) }.into());
+                    variants.push((format!("range-on-{}{}", member, order), st));
+                } else {
+                    variants.push((format!("commitment-on-{}{}", member, order), st));
+                }
+            }
+        }
+        for (vname, st) in variants {
+            let schema = PresentationSchema::new_with_id(&st, "rep");
+            let nonce = rng.bytes(16);
+            em.oracle_case(&format!("{} representations {} {}", suite, name, vname));
+            let ok = match call(|| Presentation::create(&creds, &schema, &nonce)) {
+                Out::Ok(p) => call(|| p.verify(&schema, &nonce)).is_ok(),
+                _ => false,
+            };
+            em.count(&format!("representations:{}:{}:{}", name, vname, ok));
+            if !ok {
+                em.violation(&format!("{}:equal-values-rejected:representation", tag), format!("{}: identical signed values in two representations ({}, {}) are not accepted by an honest create / verify", suite, name, vname), json!({"suite": suite, "case": name, "variant": vname, "a": serde_json::to_value(&ca).unwrap_or_default(), "b": serde_json::to_value(&cb).unwrap_or_default()}));
+            }
         }
     }
 }
@@ -972,10 +1003,10 @@ pub fn gen_c09(em: &mut Emitter, rng: &mut Rng) {
     // unit indices after those used by the suites
     let base = 2 * em.n(10, 120);
     if em.mine(base) {
-        c09_layouts::<Bbs>(em, &mut rng.sub(9001), "bbs");
+        c09_layouts::<Bbs>(em, &mut rng.sub(9001), "bbs", "c09");
     }
     if em.mine(base + 1) {
-        c09_layouts::<Ps>(em, &mut rng.sub(9002), "ps");
+        c09_layouts::<Ps>(em, &mut rng.sub(9002), "ps", "c09");
     }
     if em.mine(base + 2) {
         c09_representations::<Bbs>(em, &mut rng.sub(9005), "bbs", "c09");
